@@ -2,6 +2,7 @@
 from __future__ import annotations
 
 import ast
+import re
 
 from .pymodel import Program, iter_events
 from .idioms import negated_flag, mirrors_edge_list
@@ -308,23 +309,64 @@ def s3(run: Run, prog: Program):
                 return h.node if h is not None and name.startswith("_") and \
                     not name.startswith("__") else None
             fnode = inline_simple_helpers(f.node, _res)
+        # loop variables over constant tuples of names:  for key in (A, "b"): ...
+        loopvals = {}
+        for l in ast.walk(fnode):
+            if isinstance(l, ast.For) and isinstance(l.target, ast.Name) and \
+                    isinstance(l.iter, (ast.Tuple, ast.List)):
+                loopvals[l.target.id] = l.iter.elts
+
+        def names_of(e, _f=f, _lv=loopvals, depth=0):
+            """The string(s) an attribute-name expression stands for: a literal, a
+            module/class level string constant, a loop variable over such."""
+            if isinstance(e, ast.Constant) and isinstance(e.value, str):
+                return (e.value,)
+            if isinstance(e, ast.Name) and e.id in _lv and depth < 2:
+                out = ()
+                for x in _lv[e.id]:
+                    r = names_of(x, _f, _lv, depth + 1)
+                    if r is None:
+                        return None
+                    out += r
+                return out
+            if isinstance(e, ast.Name):
+                r = prog.resolve_name(_f.module, e.id)
+                if r and r[0] == "value" and isinstance(r[1], ast.Constant) and \
+                        isinstance(r[1].value, str):
+                    return (r[1].value,)
+            if isinstance(e, ast.Attribute) and isinstance(e.value, ast.Name):
+                # Class.CONST / self.CONST
+                for C_ in prog.classes.values():
+                    if e.value.id in (C_.name, "self", "cls") and (
+                            e.value.id == C_.name or (_f.cls is not None and
+                                                      C_ in _f.cls.mro)):
+                        for st in C_.node.body:
+                            if isinstance(st, ast.Assign) and any(
+                                    isinstance(t, ast.Name) and t.id == e.attr
+                                    for t in st.targets) and \
+                                    isinstance(st.value, ast.Constant) and \
+                                    isinstance(st.value.value, str):
+                                return (st.value.value,)
+            return None
         for c in ast.walk(fnode):
             if isinstance(c, ast.Call) and isinstance(c.func, ast.Attribute) and \
                     c.func.attr in ("set_attribute_values", "get_attribute_values") \
-                    and c.args and isinstance(c.args[0], ast.Constant):
-                consts.append((f, c.func.attr, c.args[0].value, c.lineno))
+                    and c.args and names_of(c.args[0]) is not None:
+                consts.append((f, c.func.attr, names_of(c.args[0]), c.lineno))
             if isinstance(c, ast.Compare) and isinstance(c.ops[0], (ast.In, ast.NotIn)) \
-                    and isinstance(c.left, ast.Constant) and \
+                    and names_of(c.left) is not None and \
                     "attribute_names()" in ast.unparse(c.comparators[0]):
-                consts.append((f, "in", c.left.value, c.lineno))
+                consts.append((f, "in", names_of(c.left), c.lineno))
     run.floor("S3 attribute-name sites", len(consts), 4)
-    written = {v for f, k, v, _ in consts if k == "set_attribute_values"}
+    written = {x for f, k, v, _ in consts if k == "set_attribute_values" for x in v}
     if len(written) != 1:
         raise AnalysisError(f"Network writes vertex attributes {written}: expected the "
                             f"one node-weight attribute")
     name = written.pop()
-    for f, k, v, ln in consts:
-        ok = v == name
+    for f, k, vs, ln in consts:
+        # a reader may accept several names (older files): the stored one is among them
+        ok = name in vs
+        v = "/".join(vs)
         run.oblige("S3", f"{f.qualname}:{k}@{ln}", ok, sample={"name": v})
         if not ok:
             run.add("S3", f"{f.qualname}/attribute-name/{v}", f"{f.module.relpath}:{ln}",
@@ -648,7 +690,59 @@ def s6(run: Run, prog: Program):
     run.floor("S6 builders", n, 2)
 
 
+def s7(run: Run, prog: Program):
+    """Edge arrays are two-dimensional for every link count.  `np.array(pairs)`
+    has shape (E, 2) only for E > 0; for an edgeless network it has shape (0,),
+    and the column selections `edges[:, [1, 0]]` / `edges.T[0]` that build the
+    adjacency then raise.  A function that column-indexes such an array must
+    first make it (E, 2) for E = 0 as well (reshape(-1, 2), ndmin=2 with a
+    transposition-safe form, or an explicit empty-case branch)."""
+    net = prog.classes.get("Network")
+    if net is None:
+        raise AnalysisError("class Network vanished")
+    n = 0
+    for mname, m in sorted(net.methods.items()):
+        made = {}
+        for st in ast.walk(m.node):
+            if isinstance(st, ast.Assign) and len(st.targets) == 1 and \
+                    isinstance(st.targets[0], ast.Name) and isinstance(st.value, ast.Call) \
+                    and ast.unparse(st.value.func) in ("np.array", "np.asarray",
+                                                       "numpy.array") and st.value.args:
+                a0 = ast.unparse(st.value.args[0])
+                if "get_edgelist()" in a0 or "edge_list" in a0 or "edgelist" in a0:
+                    made[st.targets[0].id] = st
+        for name, st in sorted(made.items()):
+            cols = [x for x in ast.walk(m.node)
+                    if isinstance(x, ast.Subscript) and isinstance(x.value, ast.Name)
+                    and x.value.id == name and isinstance(x.slice, ast.Tuple)
+                    and len(x.slice.elts) == 2 and x.lineno > st.lineno]
+            if not cols:
+                continue
+            n += 1
+            src = ast.unparse(m.node)
+            shaped = bool(re.search(
+                r"\b%s\s*=\s*.*reshape\(\s*\(?\s*-1\s*,\s*2" % re.escape(name), src)) or \
+                "reshape(-1, 2)" in ast.unparse(st.value) or \
+                "reshape((-1, 2))" in ast.unparse(st.value) or \
+                bool(re.search(r"\b%s\.(size|shape\[0\])\s*==\s*0|len\(%s\)\s*==\s*0|"
+                               r"not\s+len\(%s\)" % ((re.escape(name),) * 3), src))
+            run.oblige("S7", f"{m.qualname}:{name}", shaped, sample={
+                "where": f"{m.module.relpath}:{st.lineno}", "made_by": ast.unparse(st.value),
+                "column_indexed_at": cols[0].lineno})
+            if not shaped:
+                run.add("S7", f"{m.qualname}/edge-array-rank/{name}",
+                        f"{m.module.relpath}:{cols[0].lineno}",
+                        f"{m.qualname} builds `{name} = {ast.unparse(st.value)}` and "
+                        f"selects columns with `{ast.unparse(cols[0])}`: for a network "
+                        f"without links the array has shape (0,), not (0, 2), and the "
+                        f"selection raises IndexError - edgeless networks cannot be "
+                        f"built from an igraph object / edge list, loaded or rewired")
+    run.floor("S7 edge arrays that are column-indexed", n, 2)
+
+
 def check(run: Run, prog: Program):
+    run.rule("S7", "edge arrays built from an edge list are (E, 2) for E = 0 too before "
+             "their columns are selected")
     run.rule("S1", "the primary state groups are written only through their setters; "
              "loaders attach the loaded graph to an object built from it and bump the "
              "link-attribute counter")
@@ -671,3 +765,4 @@ def check(run: Run, prog: Program):
     s4(run, prog)
     s5(run, prog)
     s6(run, prog)
+    s7(run, prog)
